@@ -533,10 +533,13 @@ def lit_run(lits, tag='lit'):
                 if j.get('reason') == 'compiler-message' and j['message'].get('level') == 'error':
                     msg = j['message']['message']
                     for sp in j['message'].get('spans', []):
-                        if sp.get('file_name', '').endswith('main.rs'):
-                            k = sp['line_start'] - head_lines
-                            if k in lineof:
-                                errs.setdefault(lineof[k], []).append(msg)
+                        # follow the macro-expansion chain out to the probe's own source line
+                        while sp is not None:
+                            if sp.get('file_name', '').endswith('src/main.rs'):
+                                k = sp['line_start'] - head_lines
+                                if k in lineof:
+                                    errs.setdefault(lineof[k], []).append(msg)
+                            sp = (sp.get('expansion') or {}).get('span')
             if pr.returncode == 0 and exe:
                 out = subprocess.run([exe], capture_output=True, text=True).stdout
                 P, Q = {}, {}
